@@ -351,7 +351,8 @@ fn async_cmd(a: &Args) {
     for k in 0..count {
         shredh::unwind::set(rng.gen_bool(a.num("punwind", 0.12)));
         shredh::record::set_early_pool(rng.gen_bool(0.3));
-        shredh::build::set_noise(if rng.gen_bool(0.2) { 0.06 } else { 0.0 });
+        let noise = if rng.gen_bool(0.2) { 0.06 } else { 0.0 };
+        shredh::build::set_noise(noise);
         let mut cfg = base.clone();
         cfg.n_res = rng.gen_range(2..=base.n_res.max(2));
         let prog = gen_prog(&mut rng, &cfg, 0, "");
@@ -359,7 +360,6 @@ fn async_cmd(a: &Args) {
         prog.resources(&mut res);
         // mostly a pool wide enough for maximal overlap, now and then 1..3 workers
         let p = if rng.gen_bool(0.3) { smalls.choose(&mut rng).unwrap().clone() } else { big.clone() };
-        let mut s = record_async(&prog, Variant::identity(&res), k + 1, p.clone());
         let mut ops: Vec<String> = Vec::new();
         let n = rng.gen_range(3..=ncalls);
         let mut in_flight = false;
@@ -390,38 +390,58 @@ fn async_cmd(a: &Args) {
             ops.push(op.to_string());
         }
         let _ = in_flight;
-        // now and then an ordinary top-level system panics inside the background job
-        let mut panics = Vec::new();
-        if rng.gen_bool(a.num("ppanic", 0.0)) {
-            // an ordinary system (poisons the job) or a thread-local one (panics inside wait, once)
-            let want = if rng.gen_bool(0.5) { "plain" } else { "tl" };
-            let cand: Vec<usize> = s.rec.sys.iter().filter(|x| x.kind == want && x.builder == s.top && x.addr != 0).map(|x| x.gid).collect();
-            // half of the ordinary victims: a system of a non-first group of a stage with >= 3 groups that is not the
-            // last stage (its siblings are still held inside run when it panics; later stages must not start)
-            let wide: Vec<usize> = {
-                let (st, _) = s.rec.layout_gids(&s.ad.verif_layout());
-                let n = st.len();
-                st.iter()
-                    .enumerate()
-                    .filter(|(i, g)| g.len() >= 3 && i + 1 < n)
-                    .flat_map(|(_, g)| g[1..].iter().flatten().copied().collect::<Vec<_>>())
-                    .filter(|g| *g != 0)
-                    .collect()
-            };
-            if want == "plain" && !wide.is_empty() && rng.gen_bool(0.5) {
-                panics.push(*wide.choose(&mut rng).unwrap());
-            } else if let Some(g) = cand.choose(&mut rng) {
-                panics.push(*g);
+        // now and then the whole session (build_async, every call) is driven from a worker of the dispatcher's OWN
+        // pool (which then needs a second worker for the background job)
+        let on_worker = p.current_num_threads() >= 2 && rng.gen_bool(a.num("ponworker", 0.15));
+        let flags = (shredh::unwind::active(), shredh::record::early_pool(), noise);
+        let (ppanic, quiet_us, hold_ms, setuplog): (f64, u64, u64, bool) = (a.num("ppanic", 0.0), a.num("quiet-us", 300), a.num("hold-ms", 3), a.flag("setuplog"));
+        let mut session = |rng: &mut StdRng| -> Vec<serde_json::Value> {
+            let mut s = record_async(&prog, Variant::identity(&res), k + 1, p.clone());
+            // now and then an ordinary top-level system panics inside the background job
+            let mut panics = Vec::new();
+            if rng.gen_bool(ppanic) {
+                // an ordinary system (poisons the job) or a thread-local one (panics inside wait, once)
+                let want = if rng.gen_bool(0.5) { "plain" } else { "tl" };
+                let cand: Vec<usize> = s.rec.sys.iter().filter(|x| x.kind == want && x.builder == s.top && x.addr != 0).map(|x| x.gid).collect();
+                // half of the ordinary victims: a system of a non-first group of a stage with >= 3 groups that is not the
+                // last stage (its siblings are still held inside run when it panics; later stages must not start)
+                let wide: Vec<usize> = {
+                    let (st, _) = s.rec.layout_gids(&s.ad.verif_layout());
+                    let n = st.len();
+                    st.iter()
+                        .enumerate()
+                        .filter(|(i, g)| g.len() >= 3 && i + 1 < n)
+                        .flat_map(|(_, g)| g[1..].iter().flatten().copied().collect::<Vec<_>>())
+                        .filter(|g| *g != 0)
+                        .collect()
+                };
+                if want == "plain" && !wide.is_empty() && rng.gen_bool(0.5) {
+                    panics.push(*wide.choose(&mut *rng).unwrap());
+                } else if let Some(g) = cand.choose(&mut *rng) {
+                    panics.push(*g);
+                }
             }
-        }
-        let st = run_session(&mut s, &ops, rng.gen(), a.num("quiet-us", 300), a.num("hold-ms", 3), &panics, a.flag("setuplog"));
-        let _ = st;
+            let st = run_session(&mut s, &ops, rng.gen::<u64>(), quiet_us, hold_ms, &panics, setuplog);
+            let _ = st;
+            std::mem::take(&mut s.rec.events)
+        };
+        let evs = if on_worker {
+            let rr = &mut rng;
+            p.install(|| {
+                shredh::unwind::set(flags.0);
+                shredh::record::set_early_pool(flags.1);
+                shredh::build::set_noise(flags.2);
+                session(rr)
+            })
+        } else {
+            session(&mut rng)
+        };
         ncall += ops.len();
         nsys += prog.count_systems();
-        nev += s.rec.events.len();
-        write_events(&mut w, &s.rec.events);
+        nev += evs.len();
+        write_events(&mut w, &evs);
         if samples.len() < 2 {
-            samples.push(json!({"prog": prog, "calls": ops}));
+            samples.push(json!({"prog": prog, "calls": ops, "driven_from_a_worker_of_its_own_pool": on_worker}));
         }
     }
     w.flush().unwrap();
@@ -443,7 +463,7 @@ fn rendezvous_cmd(a: &Args) {
     let mut rng = StdRng::seed_from_u64(seed);
     let mut w = BufWriter::new(File::create(out).unwrap());
     let cores = std::thread::available_parallelism().map(|n| n.get()).unwrap_or(1);
-    let contexts = ["user", "user_par", "default", "batch", "batch_then_pool", "batch_nested", "batch_siblings", "default_outer_batch", "default_neighbour", "async", "foreign"];
+    let contexts = ["user", "user_par", "default", "batch", "batch_then_pool", "batch_nested", "batch_siblings", "default_outer_batch", "default_neighbour", "default_built_on_worker", "shared_after_async", "async", "foreign"];
     let hint_sets: Vec<Vec<u8>> = vec![vec![3], vec![1], vec![5], vec![1, 5], vec![2, 3, 4], vec![1, 1, 2]];
     let (mut runs, mut stalls, mut skipped) = (0usize, 0usize, 0usize);
     let mut samples = Vec::new();
@@ -452,7 +472,7 @@ fn rendezvous_cmd(a: &Args) {
         for ctxname in contexts {
             let hints = hint_sets.choose(&mut rng).unwrap().clone();
             let extra = *[0usize, 1, 3].choose(&mut rng).unwrap();
-            if (ctxname == "default" && cores < width)
+            if (ctxname == "default_built_on_worker" && cores < width) || (ctxname == "default" && cores < width)
                 || (ctxname == "default_outer_batch" && cores < width + 1)
                 || (ctxname == "default_neighbour" && cores.min(wmax) != width)
             {
@@ -527,6 +547,25 @@ fn rendezvous_cmd(a: &Args) {
                             let mut d = b.build();
                             std::thread::sleep(Duration::from_millis(12));
                             d.dispatch(&world);
+                        }
+                        "default_built_on_worker" => {
+                            // the default pool is sized by the machine, wherever `build` happens to be called: here on
+                            // the only worker of an unrelated one-thread pool; the dispatch comes from this thread
+                            let small = pool_of(1);
+                            let (rv2, hints2) = (rv.clone(), hints.clone());
+                            let mut sd = small.install(move || rv_builder(&rv2, &hints2).build().try_into_sendable().ok().expect("no thread-local systems"));
+                            sd.dispatch(&world);
+                        }
+                        "shared_after_async" => {
+                            // another dispatcher on the same pool has finished an asynchronous dispatch that nobody has
+                            // waited for yet: it holds no worker any more
+                            let p = pool_of(psize);
+                            let mut other = DispatcherBuilder::new().with(shredh::rvx::Noop, "noop", &[]).with_pool(p.clone()).build_async(World::empty());
+                            other.dispatch();
+                            std::thread::sleep(Duration::from_millis(15));
+                            let mut d = rv_builder(&rv, &hints).with_pool(p).build();
+                            d.dispatch(&world);
+                            other.wait();
                         }
                         "default_neighbour" => {
                             // a dispatcher's default pool is its own: another default-pool dispatcher that is busy
